@@ -295,9 +295,9 @@ func c01RequiredFromSchema(ctx *Ctx, r *Report) {
 // c01NullableRead: every OpenAPI walker that builds a value type reads schema.Nullable.
 var c01NullableExempt = map[string]string{
 	"walkDefinitions": "dispatcher", "walkSchemaRef": "dispatcher", "walkRef": "siblings of $ref are ignored in OpenAPI 3.0",
-	"walkAny": "any already accepts null", "walkAllOf": "composition keyword", "walkOneOf": "composition keyword: null is expressed as a branch",
-	"walkAnyOf": "composition keyword: null is expressed as a branch", "walkDisjunctions": "helper over branches",
-	"walkEnum": "a nullable enum must list null among its values (acknowledged by a comment in the walker); not carried (reviewed gap)",
+	"walkAny": "any already accepts null", "walkAllOf": "composition keyword", "walkDisjunctions": "helper over branches",
+	// walkOneOf, walkAnyOf and walkEnum were listed here until §24.3 ("null is expressed as a branch", "a nullable enum
+	// must list null"): kin-openapi, the reference validator, accepts null for `nullable: true` next to all three.
 }
 
 func c01NullableRead(ctx *Ctx, r *Report) {
